@@ -41,7 +41,9 @@ def loop_head(F, poll):
 def stop_once(F, R):
     poll = F.one(r'^<io::Dispatcher<P, C, U, E> as std::future::Future>::poll$')
     ps = F.one(r'^io::DispatcherInner::<P, C, U, E>::poll_service$')
-    stopf = F.one(r'^io::DispatcherInner::<P, C, U, E>::stop$')
+    # stop(fut) = `io.stop_timer(); st = Stop(Some(fut))`. When the function was merged into its callers (or replaced by a
+    # helper that was spliced back) the same store appears in place: a "stop site" is a call of stop() or such a store.
+    stopf = F.body('io::DispatcherInner::<P, C, U, E>::stop')
     head = loop_head(F, poll)
     arms = variant_edges(F, poll, ST)
     regions = {v: arm_region(poll, e) for v, e in arms.items() if not v.endswith('?')}
@@ -49,13 +51,18 @@ def stop_once(F, R):
         if not regions.get(v):
             raise AnchorLost('state arm %s not found in Dispatcher::poll' % v)
     # stop() stores Stop(Some(fut))
-    sts = state_stores(stopf)
-    R.ob('C07.stop-once', 'io::DispatcherInner::stop|assigns Stop(Some(fut))', len(sts) == 1 and sts[0][1] == 'Stop',
-         'stop() must assign st = Stop(Some(fut)); found %s' % [x[1] for x in sts])
+    if stopf is not None:
+        sts = state_stores(stopf)
+        R.ob('C07.stop-once', 'io::DispatcherInner::stop|assigns Stop(Some(fut))', len(sts) == 1 and sts[0][1] == 'Stop',
+             'stop() must assign st = Stop(Some(fut)); found %s' % [x[1] for x in sts])
+    else:
+        inline_stops = [x for b_ in (poll, ps) for x in state_stores(b_) if x[1] == 'Stop']
+        R.ob('C07.stop-once', 'io::DispatcherInner::stop|assigns Stop(Some(fut))', len(inline_stops) >= 1,
+             'neither a stop() function nor an in-place `st = Stop(Some(fut))` store was found: anchor lost')
     n_stop_calls = 0
     for b in (poll, ps):
         ccs = control_calls(b)
-        stops = list(b.calls_to(r'^io::DispatcherInner::<P, C, U, E>::stop$'))
+        stops = list(b.calls_to(r'^io::DispatcherInner::<P, C, U, E>::stop$')) + [(bi_, None) for bi_, var_, s_ in state_stores(b) if var_ == 'Stop']
         stop_blocks = {bi for bi, t in stops}
         for bi, t, kind in ccs:
             is_stop_kind = bool(re.search(r'err|proto|peer_gone|\?', kind))
@@ -86,7 +93,7 @@ def stop_once(F, R):
                 R.ob('C07.stop-once', 'poll|control.call(Control::%s)@%s|not-in-late-states' % (kind, '/'.join(dominating_variants(b, bi)) or state_of(regions, bi)), not late, 'the control service is called from state %s' % late, b.loc(bi))
     R.floor('C07.stop-once', 'Stop-kind control calls', n_stop_calls, 9)
     # poll_service: paths that stopped return Continue
-    stops = {bi for bi, t in ps.calls_to(r'^io::DispatcherInner::<P, C, U, E>::stop$')}
+    stops = {bi for bi, t in ps.calls_to(r'^io::DispatcherInner::<P, C, U, E>::stop$')} | {bi_ for bi_, var_, s_ in state_stores(ps) if var_ == 'Stop'}
     readys = [bi for bi, j, s in agg_sites(ps, r'^io::PollService$', 'Ready')]
     bad = [r for r in readys if any(r in ps.reachable_after(s) for s in stops)]
     R.ob('C07.stop-once', 'poll_service|stopped=>Continue', bool(readys) and not bad, 'poll_service can report Ready after it has called stop(): poll would go on reading and may stop again')
@@ -96,12 +103,12 @@ def stop_once(F, R):
     ready_region = arm_region(poll, ready_edges_)
     for bi, t in poll.calls_to(r'^io::DispatcherInner::<P, C, U, E>::poll_service$'):
         after = poll.reachable_after(bi, avoid={head})
-        for sb, st in poll.calls_to(r'^io::DispatcherInner::<P, C, U, E>::stop$'):
+        for sb, st in list(poll.calls_to(r'^io::DispatcherInner::<P, C, U, E>::stop$')) + [(bi_, None) for bi_, var_, s_ in state_stores(poll) if var_ == 'Stop']:
             if sb in after and sb in regions['Processing']:
                 R.ob('C07.stop-once', 'poll|stop-after-poll_service|on-Ready-edge|%s' % stop_label(poll, sb), sb in ready_region,
                      'a stop() in the Processing arm is reachable when poll_service returned Continue (it may already have stopped)', poll.loc(sb))
     # (d) transitions
-    allowed = {'Processing': {'Backpressure'}, 'Backpressure': {'Processing'}, 'Stop': {'Shutdown'}, 'Shutdown': {'ShutdownIo'}, 'ShutdownIo': set()}
+    allowed = {'Processing': {'Backpressure', 'Stop'}, 'Backpressure': {'Processing', 'Stop'}, 'Stop': {'Shutdown'}, 'Shutdown': {'ShutdownIo'}, 'ShutdownIo': set()}
     n_tr = 0
     for bi, var, s in state_stores(poll):
         src = [v for v in regions if bi in regions[v]]
@@ -110,7 +117,7 @@ def stop_once(F, R):
              'state transition %s -> %s is not a forward transition of the teardown typestate' % (src, var), poll.loc(bi))
     R.floor('C07.stop-once', 'state transitions in poll', n_tr, 3)
     # stop() is called only from poll (Processing/Backpressure) and poll_service; poll_service only from those regions
-    for caller, bi in F.callers.get(stopf.path, []):
+    for caller, bi in (F.callers.get(stopf.path, []) if stopf is not None else []):
         ok = caller in (poll.path, ps.path)
         if caller == poll.path:
             ok = any(bi in regions[v] for v in ('Processing', 'Backpressure'))
@@ -164,7 +171,7 @@ def flows_to_stop_state(b, bi, dest, stops):
                     tainted.add(s['lhs']['l'])
                     changed = True
     for sb, st in stops:
-        if sb in after and op_place(st['args'][1]) and op_place(st['args'][1])['l'] in tainted:
+        if st is not None and sb in after and op_place(st['args'][1]) and op_place(st['args'][1])['l'] in tainted:
             return True
     return False
 
@@ -176,7 +183,15 @@ def short(b):
 def stop_label(b, bi):
     """Semantic label of a stop() call: the Control constructor feeding it + dominating enum arms."""
     t = b.blocks[bi]['term']
-    og = Origin(b).of_operand(t['args'][1])
+    if t['k'] == 'call' and (callee_name(t) or '').endswith('::stop') and len(t['args']) > 1:
+        og = Origin(b).of_operand(t['args'][1])
+    else:
+        # in-place `st = Stop(Some(fut))`
+        og = set()
+        for st_ in b.blocks[bi]['stmts']:
+            if st_['k'] == 'assign' and place_fields(st_['lhs'])[-1:] == ['st'] and st_['rv']['k'] == 'agg':
+                for f_ in st_['rv']['fields']:
+                    og |= Origin(b).of_operand(f_)
     ctor = set()
     for l in og:
         if l[0] == 'call' and 'PipelineBinding' in l[1]:
